@@ -195,7 +195,10 @@ SameMeasure(e) ==
 SharedVertexStructure(e) ==
   /\ NeedNoDup(e) => \A j \in DOMAIN e.post :
                         \A u, v \in UsedVertices(e.post[j]) : u # v => e.post[j].p[u] # e.post[j].p[v]
-  /\ e.op = "matmul" => \A j \in DOMAIN e.post : e.post[j].p = e.post[1].p
+  /\ e.op = "matmul" =>                     \* one point array, and the meshes meet in the SAME vertex ids
+       /\ \A j \in DOMAIN e.post : e.post[j].p = e.post[1].p
+       /\ LET used == UNION {UsedVertices(e.post[j]) : j \in DOMAIN e.post} IN
+          \A u, v \in used : u # v => e.post[1].p[u] # e.post[1].p[v]
 
 \* ---------------------------------------------------------------------------
 \* tags.  Expected designation of a name after the operation, from the designation before it
